@@ -738,6 +738,9 @@ func (s *programState) makeAllotment(monetary *big.Int, items []parser.Allotment
 	for i, item := range items {
 		switch allotment := item.(type) {
 		case *parser.RatioLiteral:
+			if allotment.Denominator.Sign() == 0 {
+				return nil, BadPortionParsingErr{Reason: "denominator cannot be zero", Range: allotment.Range}
+			}
 			rat := allotment.ToRatio()
 			totalAllotment.Add(totalAllotment, rat)
 			allotments = append(allotments, rat)
